@@ -18,11 +18,15 @@ RULE = (
     "subject to the order, i.e. can be overtaken); plus two workflows sharing a concurrency limit of 1, the second BUFFERED, "
     "cancelled at every step while it waits or runs. tau = audit sequence number of the durable is_canceled 0->1 row. "
     "Oracles: no ledger entry begins after tau; every top-level stage unfinished at tau ends CANCELED; nothing RUNNING; "
-    "workflow final and CANCELED unless every top-level stage had finished at tau or a stage is TERMINAL. Non-trivial = "
+    "workflow final and CANCELED unless every top-level stage had finished at tau or a stage is TERMINAL. The same oracle "
+    "runs over workflows executed by 2-4 worker threads interleaved at SQL-statement granularity while a further thread "
+    "issues the cancel at a random point; there a task execution beginning after tau is exempt only when its RunTask "
+    "delivery had been polled before tau (handler already in flight), and a non-CANCELED final status only when the "
+    "CompleteWorkflow that wrote it had been polled before tau. Non-trivial = "
     "cancel became durable while >=1 stage was unfinished; distinct = (spec, multiset of stage statuses at tau)."
 )
 ASSUMPTIONS = ["SQLite backend", "'begins executing' = Task.execute entry (ledger record) compared by audit sequence number"]
-MIN_OBS = {"cancels_while_unfinished": {"quick": 500, "thorough": 8000}}
+MIN_OBS = {"cancels_while_unfinished": {"quick": 500, "thorough": 8000}, "interleaved_runs": {"quick": 80, "thorough": 1000}}
 TIMEOUT = {"quick": 600, "thorough": 3000}
 
 
@@ -46,10 +50,12 @@ def gen_cases(tier: str, seed: int) -> list[dict]:
     for i, _ in enumerate(_specs(tier, seed)):
         for order in ("fifo", "random", "random_noack"):
             cases.append({"spec_i": i, "order": order, "seed": seed})
+    for i in range(100 if tier == "quick" else 1200):
+        cases.append({"kind": "race", "spec_i": i, "seed": seed})
     return cases
 
 
-def cancel_oracle(spec: dict, run) -> tuple[list[dict], Counter, set]:
+def cancel_oracle(spec: dict, run, in_flight_ords: set | None = None) -> tuple[list[dict], Counter, set]:
     out = []
     obs: Counter = Counter()
     keys: set = set()
@@ -66,7 +72,8 @@ def cancel_oracle(spec: dict, run) -> tuple[list[dict], Counter, set]:
     top = {s["ref"] for s in spec["stages"]}
     at_tau = {r: tl.at(ids[r], tau) for r in top if r in ids}
     unfinished = {r for r, s in at_tau.items() if s not in oracles.COMPLETE}
-    late = [r for r in run.ledger if r["seq"] >= tau]
+    late = [r for r in run.ledger if r["seq"] >= tau and r["ord"] not in (in_flight_ords or ())]
+    obs["executions_in_flight_at_cancel"] += sum(1 for r in run.ledger if r["seq"] >= tau and r["ord"] in (in_flight_ords or ()))
     for r in late:
         out.append(viol("C17/task-started-after-cancel", f"{r['ref']}.t{r['task']} began executing at seq {r['seq']} >= cancel commit {tau}"))
     if not run.quiescent:
@@ -165,9 +172,77 @@ def _buffered(case: dict) -> dict:
     return {"violations": uniq, "obs": dict(obs), "keys": sorted(keys)}
 
 
+def _race(case: dict) -> dict:
+    """Cancel issued from its own thread while 2-4 worker threads run the workflow, everything
+    interleaved at SQL-statement granularity.  A task execution that begins after the cancel commit is
+    a violation unless the delivery it belongs to had been polled before the cancel was durable (a
+    handler already in flight: it read the workflow before the cancel existed)."""
+    from .. import interleave as il
+
+    sp = _specs("thorough", case["seed"])
+    i = case["spec_i"]
+    # library shapes (loops, joins, synthetic stages, ...) every second case, random DAGs otherwise
+    spec = sp[(i // 2) % 15] if i % 2 == 0 else sp[15 + (i // 2) % (len(sp) - 15)]
+    rng = random.Random(case["seed"] * 9176 + case["spec_i"])
+    records: list = []
+
+    def injector(w, sched, stop):
+        il.idle_points(sched, rng.randrange(0, 400), stop)
+        w.cancel()
+
+    run, info = il.race_run(spec, rng, injector=injector, records=records)
+    obs: Counter = Counter({"evaluations": 1})
+    if run is None:
+        obs["scheduler_failed"] += 1
+        return {"violations": [], "obs": dict(obs), "keys": [], "inconclusive": info.get("failed")}
+    obs["interleaved_runs"] += 1
+    tau = next((a["seq"] for a in run.audit if a["kind"] == "cancel" and str(a["d"]) == "1"), None)
+    in_flight: set = set()
+    if tau is not None:
+        # task bodies run on bulkhead pool threads: a ledger entry is tied to its delivery through
+        # the task id carried by the RunTask message
+        tl = oracles.Timeline(run.audit)
+        task_of = {(m["owner"], m["name"]): eid for eid, m in tl.meta.items() if m["kind"] == "task"}
+        by_task: dict[str, list] = {}
+        for d in records:
+            if d["type"] == "RunTask" and d.get("task_id"):
+                by_task.setdefault(d["task_id"], []).append(d)
+        for r in run.ledger:
+            if r["seq"] < tau:
+                continue
+            tid = task_of.get((r["stage_id"], f"t{r['task']}"))
+            mine = sorted((d for d in by_task.get(tid, []) if d["post_poll_seq"] <= r["seq"]), key=lambda d: d["post_poll_seq"])
+            if mine and mine[-1]["post_poll_seq"] < tau:
+                in_flight.add(r["ord"])
+    v, o, k = cancel_oracle(spec, run, in_flight)
+    if tau is not None and any(x["sig"] == "C17/final-status-not-canceled" for x in v):
+        # "unless it had in effect already finished": the CompleteWorkflow that wrote the final status
+        # was already being handled (polled before the cancel was durable)
+        groups = oracles.Groups(run.commits)
+        fin = [a for a in run.audit if a["kind"] == "status" and a["op"] == "wf" and a["d"] in oracles.COMPLETE]
+        tag = groups.tag(groups.of(fin[-1]["seq"])) if fin else None
+        d = next((d for d in records if tag and d["type"] == "CompleteWorkflow" and str(d["polled"]) == str(tag[1])), None)
+        if d is not None and d["post_poll_seq"] < tau:
+            v = [x for x in v if x["sig"] != "C17/final-status-not-canceled"]
+            obs["workflow_completion_in_flight_at_cancel"] += 1
+    v = oracles.attribute(v, run, "C17")
+    obs.update(o)
+    for x in v:
+        x.update(spec=spec["name"], interleaved=True, trace_hash=info["trace_hash"])
+    seen = set()
+    uniq = []
+    for x in v:
+        if x["sig"] not in seen:
+            seen.add(x["sig"])
+            uniq.append(x)
+    return {"violations": uniq, "obs": dict(obs), "keys": sorted("race:" + x for x in k)}
+
+
 def run_case(case: dict) -> dict:
     if case.get("kind") == "buffered":
         return _buffered(case)
+    if case.get("kind") == "race":
+        return _race(case)
     spec = _specs("thorough" if case["spec_i"] >= 15 else "quick", case["seed"])[case["spec_i"]]
     ref = delivery_run(spec)
     obs: Counter = Counter()
